@@ -277,9 +277,10 @@ func c01Run(r *runCtx, id string, f []string) {
 		r.stat("outside_theorem_class_otherwise_else")
 	}
 	if af[2] != realCode {
-		// the model's program differs: running lines on it would only repeat the difference
-		r.ok(id)
-		return
+		// the code generator and its model disagree (reported as a broken correspondence); the lines
+		// are still run, so that a program and line on which the real result differs from the
+		// reference semantics is found and reported as the failing input
+		r.stat("bytecode_differs_from_model")
 	}
 	if s := m.ask("S " + encStore(u.obj.Metrics, u.since)); s != "S ok" {
 		fmt.Fprintf(r.w, "%s MOBS model-error %s\n", id, s)
